@@ -46,5 +46,5 @@ fn bind(root: &'static str) -> CallFn {
 }
 
 pub fn main(args: &Args) {
-    staticlab::run(args, &[Handler::ServeDir, Handler::ServeAsFilePath], bind, "tokio:", "tokio");
+    staticlab::run(args, &[Handler::ServeDir, Handler::ServeAsFilePath], bind, "tokio:", "tokio", None);
 }
